@@ -265,6 +265,58 @@ def gen_lopsided(rng):
     return tuple(ops)
 
 
+def gen_crowded(rng):
+    """a range added to (or updated into) a CROWDED set - more members than any range has blocks (2*width - 2), so
+    an implementation that treats the blocks of the range one by one sees them next to many neighbours - where
+    members already present complete the sibling chain of one block of the range (the merge cascade then climbs
+    through the later blocks) and other members lie strictly inside a later block (seed C06-r10-1: the blocks
+    were all inserted first and compacted one at a time; a later block swallowed as a sibling kept its stale
+    subnets)"""
+    ver = 4 if rng.random() < 0.75 else 6
+    w = W[ver]
+    nbg = (2 * w + 4) + rng.randrange(0, 14)
+    m = rng.choice([3, 4, 5, 6, 7, 8])
+    base = (rng.getrandbits(w - 14) << 13) | (rng.getrandbits(13 - m) << m)
+    base &= (1 << w) - 1
+    bg0 = (base ^ (1 << (w - 1))) & ~0xfff
+    bg = [('N', ver, bg0 + 4 * i, w, rng.choice(['net', 'addr'])) for i in range(nbg)]   # stride 4: nothing merges
+    k = rng.random()
+    inner = []
+    if k < 0.4:
+        lo, hi = base + 1, base + (1 << m) - 1                    # blocks .1/32 .2/31 .4/30 ... upwards
+        inner.append(('N', ver, base, w, 'addr'))                 # the sibling of the first block
+        for _ in range(rng.randrange(1, 4)):
+            j = rng.randrange(1, m)
+            inner.append(('N', ver, base + (1 << j) + rng.randrange(1 << j), w, rng.choice(['net', 'addr'])))
+    elif k < 0.8:
+        lo, hi = base, base + (1 << m) - 2                        # the mirror image
+        inner.append(('N', ver, base + (1 << m) - 1, w, 'addr'))
+        for _ in range(rng.randrange(1, 4)):
+            j = rng.randrange(1, m)
+            top = base + (1 << m) - (1 << j)                      # block [top - 2^j, top - 1]
+            inner.append(('N', ver, top - 1 - rng.randrange(1 << j), w, rng.choice(['net', 'addr'])))
+    else:
+        lo = base + rng.randrange(1 << m)
+        hi = min(base + (1 << m) - 1 + rng.choice([0, 0, 1, 5]), lo + rng.randrange(1 << m))
+        for _ in range(rng.randrange(2, 7)):
+            q = rng.choice([w, w, w - 1, w - 2])
+            inner.append(('N', ver, (base + rng.randrange(-2, (1 << m) + 2)) & ((1 << w) - 1), q, 'net'))
+    members = bg + inner
+    rng.shuffle(members)
+    r = ('R', ver, lo, max(lo, hi), 'range')
+    ops = [('new', 0, 'list', tuple(members))]
+    if rng.random() < 0.6:
+        ops.append(('add', 0, r))
+    else:
+        ops.append(('upd', 0, 'arg', r))
+    probe = ('N', ver, rng.choice([lo, hi, base, base + (1 << m) - 1]) & ((1 << w) - 1), w, 'addr')
+    ops.append(('q', 0, 0, probe))
+    if rng.random() < 0.3:
+        ops.append(('rem', 0, ('N', ver, lo, w, 'addr')))
+        ops.append(('q', 0, 0, probe))
+    return tuple(ops)
+
+
 def shuffle4(rng):
     l = ['or', 'and', 'sub', 'xor']
     rng.shuffle(l)
@@ -281,6 +333,8 @@ def gen_history(rng, tier, raw=False):
         return gen_biglen(rng)
     if r0 < 0.33:
         return gen_lopsided(rng)
+    if r0 < 0.38:
+        return gen_crowded(rng)
     wins = _hot_windows(rng)
     n = rng.randrange(1, 13 if tier == 'quick' else 31)
     ops = []
